@@ -720,6 +720,7 @@ func helperShapes(files map[string]*ast.File, fn func(file, recv, name string) *
 			}
 		}
 	}
+	judgeRel = judgeOf(fn)
 	fallbackRel = fallbackOf(fn)
 	if h := fn("class.go", "*ClassMethod", "Call"); h != nil {
 		if len(h.Body.List) == 0 || !strings.Contains(nodeText(h.Body.List[0]), "cmc.SelfClass = lexicalClassOfMethod(ctx.GetVM(), cmc.Class, m)") {
@@ -744,21 +745,72 @@ func helperShapes(files map[string]*ast.File, fn func(file, recv, name string) *
 // argument order → symmetric, no T → unconditional, `return false` → absent, anything else → shapeChanged.
 var fallbackRel = ".shapeChanged"
 
+// judgeRel: which class canAccessDeclared hands to canAccessMember for a PROTECTED member
+// (Model.AccessDecl.Judge). The function must begin
+//
+//	vm := ctx.GetVM(); decl := class; for decl != nil && !declares(decl) { decl = parentClassOf(vm, decl) }
+//
+// followed directly by `if canAccessMember(ctx, decl, modifier) { return true }` → nearest. One statement
+// `if modifier == data.ModifierProtected { decl = <helper>(vm, decl, declares) }` in between, the helper being
+// `for c := decl; c != nil; c = parentClassOf(vm, c) { if declares(c) { decl = c } }; return decl` → topmost.
+// Anything else → shapeChanged (a helper that stops at private declarations needs the modifier of an ancestor's
+// declaration, which `declares` does not tell: it would come with another signature and is reported as a shape
+// change to be modelled as `.prototype`).
+var judgeRel = ".shapeChanged"
+
+func judgeOf(fn func(file, recv, name string) *ast.FuncDecl) string {
+	h := fn("visibility.go", "", "canAccessDeclared")
+	if h == nil || len(h.Body.List) < 4 {
+		note("canAccessDeclared: not found or too short for the judged-class fact")
+		return ".shapeChanged"
+	}
+	l := h.Body.List
+	if nodeText(l[0]) != "vm := ctx.GetVM()" || nodeText(l[1]) != "decl := class" ||
+		nodeText(l[2]) != "for decl != nil && !declares(decl) { decl = parentClassOf(vm, decl) }" {
+		note("canAccessDeclared: the walk to the nearest declaration is not the first three statements")
+		return ".shapeChanged"
+	}
+	const test = "if canAccessMember(ctx, decl, modifier) { return true }"
+	if nodeText(l[3]) == test {
+		return ".nearest"
+	}
+	if len(l) >= 5 && nodeText(l[4]) == test {
+		t := nodeText(l[3])
+		const pre, post = "if modifier == data.ModifierProtected { decl = ", "(vm, decl, declares) }"
+		if strings.HasPrefix(t, pre) && strings.HasSuffix(t, post) {
+			name := t[len(pre) : len(t)-len(post)]
+			if g := fn("visibility.go", "", name); g != nil && len(g.Body.List) == 2 &&
+				nodeText(g.Body.List[0]) == "for c := decl; c != nil; c = parentClassOf(vm, c) { if declares(c) { decl = c } }" &&
+				nodeText(g.Body.List[1]) == "return decl" {
+				return ".topmost"
+			}
+		}
+		note("canAccessDeclared: the class handed to canAccessMember is re-targeted by %q", t)
+		return ".shapeChanged"
+	}
+	note("canAccessDeclared: the canAccessMember test does not follow the walk: %q", nodeText(l[3]))
+	return ".shapeChanged"
+}
+
 func fallbackOf(fn func(file, recv, name string) *ast.FuncDecl) string {
 	h := fn("visibility.go", "", "canAccessDeclared")
 	if h == nil || len(h.Body.List) == 0 {
 		note("canAccessDeclared: not found")
 		return ".shapeChanged"
 	}
-	if len(h.Body.List) != 6 {
-		note("canAccessDeclared: expected 6 statements, found %d", len(h.Body.List))
+	want := 6
+	if judgeRel == ".topmost" || judgeRel == ".prototype" {
+		want = 7 // the recognised re-targeting statement between the walk and the canAccessMember test
+	}
+	if len(h.Body.List) != want {
+		note("canAccessDeclared: expected %d statements, found %d", want, len(h.Body.List))
 		return ".shapeChanged"
 	}
-	if t := nodeText(h.Body.List[4]); t != "scope := scopeClassOf(ctx)" {
+	if t := nodeText(h.Body.List[want-2]); t != "scope := scopeClassOf(ctx)" {
 		note("canAccessDeclared: the scope of the fallback is %q", t)
 		return ".shapeChanged"
 	}
-	last := nodeText(h.Body.List[5])
+	last := nodeText(h.Body.List[want-1])
 	const pre = "return scope != nil && declares(scope)"
 	switch {
 	case last == "return false":
@@ -795,6 +847,29 @@ func fallbackOf(fn func(file, recv, name string) *ast.FuncDecl) string {
 	}
 	note("canAccessDeclared: fallback clause not recognised: %q", last)
 	return ".shapeChanged"
+}
+
+// variadicHelperOK: `checkVariadicElement(object, p, value, from)` is
+//
+//	if pt, isTypeParam := genericParamType(object, p.Type); isTypeParam { … }
+//	return p.checkElement(value)
+//
+// i.e. a declared type that is not a type parameter of the object's generic class is tested by checkElement
+func variadicHelperOK(h *ast.FuncDecl) bool {
+	if h == nil || h.Body == nil || len(h.Body.List) != 2 {
+		note("checkVariadicElement: expected the generic-parameter branch followed by `return p.checkElement(value)`")
+		return false
+	}
+	first, ok := h.Body.List[0].(*ast.IfStmt)
+	if !ok || first.Init == nil || nodeText(first.Init) != "pt, isTypeParam := genericParamType(object, p.Type)" || nodeText(first.Cond) != "isTypeParam" || first.Else != nil {
+		note("checkVariadicElement: the first statement is not the generic-parameter branch")
+		return false
+	}
+	if nodeText(h.Body.List[1]) != "return p.checkElement(value)" {
+		note("checkVariadicElement: does not end with `return p.checkElement(value)`")
+		return false
+	}
+	return true
 }
 
 // nodeText: source text of a node, whitespace normalised
@@ -1641,6 +1716,10 @@ func main() {
 			sites++
 			if containsCall(&ast.BlockStmt{List: body}, x.call) {
 				calls++
+			} else if containsCall(&ast.BlockStmt{List: body}, "checkVariadicElement") && variadicHelperOK(fn(x.file, "", "checkVariadicElement")) {
+				// the wrapper of the generic path (type parameter → type argument of the instantiation, C19's
+				// concern); every other declared type goes to Parameters.checkElement unchanged
+				calls++
 			}
 		}
 		var ce *ast.FuncDecl
@@ -1734,6 +1813,7 @@ func main() {
 	}
 	sb.WriteString("]\n")
 	fmt.Fprintf(&sb, "\n/-- which relation between the receiver's class and the scope class `canAccessDeclared` asks for before it\ngrants the scope class's own same-named member -/\ndef fallbackRel : Model.AccessDecl.Fallback := %s\n", fallbackRel)
+	fmt.Fprintf(&sb, "\n/-- which class `canAccessDeclared` hands to `canAccessMember` for a protected member: the nearest declaration\nthe walk stopped at, or a class further up -/\ndef judgeRel : Model.AccessDecl.Judge := %s\n", judgeRel)
 	fmt.Fprintf(&sb, "\n/-- does `new` run the abstract test first and the completeness validation on every call -/\ndef instGlue : Model.Inst.Glue := ⟨%v, %v⟩\n", abstractFirst, validateEvery)
 	sort.Strings(notes)
 	{
